@@ -26,10 +26,13 @@ from fractions import Fraction
 from .. import core, gen
 
 # ------------------------------------------------------------------------------------------------------------
-# SWITCH: lattice types (|LATT N|) the generator uses. The library's operator list is incomplete for centred
-# lattices (property C11, being repaired separately); until that has landed only primitive settings are
-# generated. Set to (1, 2, 3, 4, 5, 6, 7) to switch the centred settings of SETTINGS on.
-LATTICE_TYPES = (1,)
+# SWITCH: lattice types (|LATT N|) the generator uses: 1 = P, 2 = I, 3 = R (obverse, hexagonal axes), 4 = F, 5 = A,
+# 6 = B, 7 = C. Centred settings are on since the C11 repair (complete operator list) has landed; the quick tier
+# visits every primitive setting and QUICK_CENTRED randomly chosen centred ones per run, the thorough tier all.
+LATTICE_TYPES = (1, 2, 3, 4, 5, 6, 7)
+QUICK_CENTRED = 5
+QUICK_CENTRIC = 3
+HISTORY_SHARE = 0.35   # share of the generated cases that carry a calc -> edit -> calc history on one object
 # ------------------------------------------------------------------------------------------------------------
 
 BOX = 3
@@ -72,6 +75,9 @@ SETTINGS = [
     ('Ibca', 'ortho', 2, ['1/2-X, -Y, 1/2+Z', '-X, 1/2+Y, 1/2-Z', '1/2+X, 1/2-Y, -Z']),
     ('I41', 'tetr', -2, ['1/2-X, 1/2-Y, 1/2+Z', '-Y, 1/2+X, 1/4+Z', '1/2+Y, -X, 3/4+Z']),
     ('R-3', 'hex', 3, ['-Y, X-Y, Z', '-X+Y, -X, Z']),
+    ('C2/m', 'mono', 7, ['-X, Y, -Z']),
+    ('I41/a', 'tetr', 2, ['1/2-X, -Y, 1/2+Z', '3/4-Y, 1/4+X, 1/4+Z', '3/4+Y, 3/4-X, 3/4+Z']),
+    ('Fddd', 'ortho', 4, ['3/4-X, 3/4-Y, Z', '3/4-X, Y, 3/4-Z', 'X, 3/4-Y, 3/4-Z']),
     ('R3', 'hex', -3, ['-Y, X-Y, Z', '-X+Y, -X, Z']),
 ]
 CENTRING = {1: [], 2: [(Fraction(1, 2),) * 3], 3: [(Fraction(2, 3), Fraction(1, 3), Fraction(1, 3)), (Fraction(1, 3), Fraction(2, 3), Fraction(2, 3))],
@@ -128,6 +134,22 @@ def expand_group(latt: int, symm):
         for R, t in ops:
             full.append((R, tuple((a + b) % 1 for a, b in zip(t, c))))
     return full
+
+
+def check_settings_table():
+    """every tabulated setting must expand to a group (closed under composition modulo lattice translations, no
+    operator twice): guards the table against typing errors"""
+    for name, _, latt, symm in SETTINGS:
+        g = expand_group(latt, symm)
+        keys = {(R, tuple(t % 1 for t in tau)) for R, tau in g}
+        if len(keys) != len(g):
+            raise RuntimeError(f'C13 harness: setting {name} lists an operator twice')
+        for R1, t1 in g:
+            for R2, t2 in g:
+                R = tuple(tuple(sum(R1[i][k] * R2[k][j] for k in range(3)) for j in range(3)) for i in range(3))
+                t = tuple((sum(R1[i][k] * t2[k] for k in range(3)) + t1[i]) % 1 for i in range(3))
+                if (R, t) not in keys:
+                    raise RuntimeError(f'C13 harness: setting {name} is not closed under composition')
 
 
 # ------------------------------------------------------------------------------------------------------------
@@ -280,36 +302,103 @@ def render(case):
     return fs.text()
 
 
+def apply_edit_to_case(atoms, e):
+    """the expected model after one edit (by construction, never read back from the code under test)"""
+    atoms = [dict(a) for a in atoms]
+    if e['op'] == 'delete':
+        del atoms[e['i']]
+    elif e['op'] == 'move':
+        atoms[e['i']]['xyz'] = list(e['xyz'])
+    elif e['op'] == 'element':
+        atoms[e['i']]['el'] = e['el']
+    elif e['op'] == 'part':
+        atoms[e['i']]['part'] = e['part']
+    elif e['op'] == 'add':
+        atoms.append(dict(name=e['name'], el=e['el'], xyz=list(e['xyz']), part=e['part']))
+    else:
+        raise ValueError(e)
+    return atoms
+
+
+def stages(case):
+    """a case with a `history` (calc -> edits -> calc -> ... on ONE Shelxfile object) as the list of plain structures
+    whose shortest-distance matrix is observed: stage 0 is the file as read, stage k the model after step k"""
+    base = {k: v for k, v in case.items() if k != 'history'}
+    out = [base]
+    atoms = case['atoms']
+    for step in case.get('history', []):
+        for e in step['edits']:
+            atoms = apply_edit_to_case(atoms, e)
+        out.append(dict(base, atoms=atoms))
+    return out
+
+
+def apply_edit_to_shx(shx, e):
+    from shelxfile.shelx.cards import PART
+    atoms = shx.atoms.all_atoms
+    if e['op'] == 'delete':
+        atoms[e['i']].delete()
+    elif e['op'] == 'move':
+        atoms[e['i']].frac_coords = list(e['xyz'])
+    elif e['op'] == 'element':
+        atoms[e['i']].element = e['el']
+    elif e['op'] == 'part':
+        atoms[e['i']].part = PART(shx, ['PART', str(e['part'])])
+    elif e['op'] == 'add':
+        shx.add_atom(name=e['name'], coordinates=list(e['xyz']), element=e['el'], uvals=[0.04, 0.0, 0.0, 0.0, 0.0, 0.0], part=e['part'])
+
+
 def observe_impl(case):
+    """one Shelxfile object through the whole history; one observation per stage"""
     from shelxfile import Shelxfile
     from shelxfile.shelx.sdm import SDM
     shx = Shelxfile()
     with contextlib.redirect_stdout(io.StringIO()):
         shx.read_string(render(case))
-    atoms = shx.atoms.all_atoms
-    want = [(a['name'].upper(), a['part'], a['el'].upper()) for a in case['atoms']]
-    got = [(a.name.upper(), a.part.n, a.element.upper()) for a in atoms]
-    if got != want:
-        return dict(error=f'parse: atoms {got} expected {want}')
-    for a, c in zip(atoms, case['atoms']):
-        if [float(v) for v in a.frac_coords] != [float(v) for v in c['xyz']]:
-            return dict(error=f'parse: coordinates of {a.name} {a.frac_coords} expected {c["xyz"]}')
-    ops = []
-    for s in shx.symmcards:
-        # rows of the stored matrix exactly as `Array.__mul__` reads them (`other[0]`, `other[1]`, `other[2]`)
-        ops.append([float(v) for i in range(3) for v in s.matrix[i]] + [float(v) for v in s.trans])
-    try:
-        sdm = SDM(shx)
-        with contextlib.redirect_stdout(io.StringIO()):
-            sdm.calc_sdm()
-    except Exception as e:  # the property's observable raised
-        return dict(ops=ops, raised=type(e).__name__)
-    index = {id(a): k for k, a in enumerate(atoms)}
-    items = []
-    for it in sdm.sdm_list:
-        items.append(dict(a1=index.get(id(it.atom1)), a2=index.get(id(it.atom2)), i1=it.a1, i2=it.a2, dist=float(it.dist),
-                          n=int(it.symmetry_number), cov=bool(it.covalent)))
-    return dict(ops=ops, items=items, mol=[int(a.molindex) for a in atoms])
+    out = []
+    sdm = None
+    history = case.get('history', [])
+    for k, st in enumerate(stages(case)):
+        if k > 0:
+            step = history[k - 1]
+            try:
+                with contextlib.redirect_stdout(io.StringIO()):
+                    if step.get('grow'):
+                        shx.grow()
+                    for e in step['edits']:
+                        apply_edit_to_shx(shx, e)
+            except Exception as e:
+                out.append(dict(error=f'edit: step {k} raised {type(e).__name__}: {e}'))
+                break
+        atoms = shx.atoms.all_atoms
+        want = [(a['name'].upper(), a['part'], a['el'].upper()) for a in st['atoms']]
+        got = [(a.name.upper(), a.part.n, a.element.upper()) for a in atoms]
+        if got != want:
+            out.append(dict(error=f'{"parse" if k == 0 else "edit"}: atoms {got} expected {want}'))
+            break
+        bad = [a.name for a, c in zip(atoms, st['atoms']) if [float(v) for v in a.frac_coords] != [float(v) for v in c['xyz']]]
+        if bad:
+            out.append(dict(error=f'{"parse" if k == 0 else "edit"}: coordinates of {bad} differ from the expected model'))
+            break
+        ops = []
+        for s in shx.symmcards:
+            # rows of the stored matrix exactly as `Array.__mul__` reads them (`other[0]`, `other[1]`, `other[2]`)
+            ops.append([float(v) for i in range(3) for v in s.matrix[i]] + [float(v) for v in s.trans])
+        try:
+            if not (k > 0 and history[k - 1].get('reuse') and sdm is not None):
+                sdm = SDM(shx)       # else: the SDM object of the previous stage is asked again
+            with contextlib.redirect_stdout(io.StringIO()):
+                sdm.calc_sdm()
+        except Exception as e:  # the property's observable raised
+            out.append(dict(ops=ops, raised=type(e).__name__))
+            break
+        index = {id(a): i for i, a in enumerate(atoms)}
+        items = []
+        for it in sdm.sdm_list:
+            items.append(dict(a1=index.get(id(it.atom1)), a2=index.get(id(it.atom2)), i1=it.a1, i2=it.a2, dist=float(it.dist),
+                              n=int(it.symmetry_number), cov=bool(it.covalent)))
+        out.append(dict(ops=ops, items=items, mol=[int(a.molindex) for a in atoms]))
+    return out
 
 
 def lib_constants():
@@ -351,12 +440,40 @@ def lib_op_min(orc, op, x1, x2):
     return None if m is None else math.sqrt(m)
 
 
+DRIVER_TIMEOUT = 180   # seconds per batch of <= 50 structures (a batch takes well under a second)
+
+
+def driver_batch(ctx, reqs):
+    """ctx.driver.batch with a wall-clock guard: a driver that does not answer is killed (subprocess.run kills the
+    child on timeout) and reported as an infrastructure error, never left running"""
+    import json
+    import subprocess
+    data = '\n'.join(json.dumps(r, separators=(',', ':')) for r in reqs) + '\n'
+    try:
+        p = subprocess.run([ctx.driver.exe], input=data, stdout=subprocess.PIPE, stderr=subprocess.PIPE, text=True, timeout=DRIVER_TIMEOUT)
+    except subprocess.TimeoutExpired:
+        raise core.LeanError(f'C13: driver did not answer {len(reqs)} requests within {DRIVER_TIMEOUT} s (killed)')
+    if p.returncode != 0:
+        raise core.LeanError(f'driver exit {p.returncode}: {p.stderr[-2000:]}')
+    lines = p.stdout.splitlines()
+    if len(lines) != len(reqs):
+        raise core.LeanError(f'driver answered {len(lines)} lines for {len(reqs)} requests; stderr: {p.stderr[-2000:]}')
+    out = []
+    for ln, rq in zip(lines, reqs):
+        j = json.loads(ln)
+        if isinstance(j, dict) and 'driver_error' in j:
+            raise core.LeanError(f'driver error {j["driver_error"]} on request {json.dumps(rq)[:500]}')
+        out.append(core.dec(j))
+    ctx.driver.lines += len(reqs)
+    return out
+
+
 _consts_cache = {}
 
 
 def constants(ctx):
     if 'c' not in _consts_cache:
-        _consts_cache['c'] = ctx.driver.one(dict(p='C13', op='consts'))
+        _consts_cache['c'] = driver_batch(ctx, [dict(p='C13', op='consts')])[0]
     return _consts_cache['c']
 
 
@@ -365,23 +482,31 @@ def evaluate(ctx, cases, stream=None):
     radius = lib_constants()
     ctx.stream('sdm')
     ctx.stream('molindex')
-    impls, orcs, reqs = [], [], []
+    work, reqs = [], []
     for case in cases:
-        obs = observe_impl(case)
-        orc = oracle(case, radius)
-        impls.append(obs)
-        orcs.append(orc)
-        reqs.append(request(case, obs.get('ops', []), orc['group']))
-    answers = ctx.driver.batch(reqs)
-    for case, obs, orc, ans in zip(cases, impls, orcs, answers):
-        judge(ctx, case, obs, orc, ans)
+        observations = observe_impl(case)
+        for k, (st, obs) in enumerate(zip(stages(case), observations)):     # stages after a failed one are not reached
+            orc = oracle(st, radius)
+            work.append((case, k, st, obs, orc))
+            reqs.append(request(st, obs.get('ops', []), orc['group']))
+    answers = driver_batch(ctx, reqs)
+    for (case, k, st, obs, orc), ans in zip(work, answers):
+        judge(ctx, case, k, st, obs, orc, ans)
 
 
-def judge(ctx, case, obs, orc, ans):
+def judge(ctx, full_case, stage, case, obs, orc, ans):
+    """`case` is the plain structure of this stage, `full_case` (with its history) is what a replay needs"""
     atoms = case['atoms']
     n = len(atoms)
     setting = case.get('setting', '?')
-    base = dict(case=case)
+    if stage:
+        step = full_case['history'][stage - 1]
+        setting += f' [after step {stage}: ' + ('grow(), ' if step.get('grow') else '') + \
+                   ', '.join(e['op'] for e in step['edits']) + ('; same SDM object' if step.get('reuse') else '') + ']'
+    base = dict(case=full_case, stage=stage)
+    if 'error' in obs and obs['error'].startswith('edit'):
+        ctx.fail('C13|history-edit', f'{setting}: the edit did not produce the expected model: {obs["error"]}', dict(base, stream='sdm', actual=obs), kind='correspondence')
+        return
     if 'error' in obs:
         ctx.fail('C13|parse', f'generated valid file not parsed as expected: {obs["error"]}', dict(base, stream='sdm', actual=obs), kind='correspondence')
         return
@@ -493,10 +618,15 @@ def judge(ctx, case, obs, orc, ans):
         skipped.add('molindex:near-limit')
     ncomp = len(set(orc['comp']))
     parts = sorted({a['part'] for a in atoms})
-    tags = [f'setting={setting}', f'n={n}', f'components={min(ncomp, 5)}{"+" if ncomp > 5 else ""}', 'parts=' + ','.join(map(str, parts)),
+    hist_tags = []
+    if stage:
+        step = full_case['history'][stage - 1]
+        hist_tags = ['history:stage>0'] + [f'edit:{e["op"]}' for e in step['edits']] + \
+                    (['history:grow-before'] if step.get('grow') else []) + (['history:same-SDM-object'] if step.get('reuse') else [])
+    tags = hist_tags + [f'setting={case.get("setting", "?")}', f'n={n}', f'components={min(ncomp, 5)}{"+" if ncomp > 5 else ""}', 'parts=' + ','.join(map(str, parts)),
             'has-H' if any(a['el'] in HYDROGENS for a in atoms) else 'no-H', 'sym>0' if nsym else 'identity-only',
             'bonds' if nbond else 'no-bonds'] + [f'skipped:{s}' for s in sorted(skipped)]
-    ctx.count(['sdm', case['cell'], case['latt'], case['symm'], [(a['el'], a['part'], a['xyz']) for a in atoms]],
+    ctx.count(['sdm', case['cell'], case['latt'], case['symm'], [(a['el'], a['part'], a['xyz']) for a in atoms], stage, full_case.get('history', [])[:stage]],
               nontrivial=nsym > 0 and nbond > 0, tags=tags,
               sample=dict(stream='sdm', setting=setting, cell=case['cell'], atoms=[(a['name'], a['part'], a['xyz']) for a in atoms][:4],
                           items=[(it['a1'], it['a2'], round(it['dist'], 5), it['n'], it['cov']) for it in obs['items']][:6],
@@ -550,6 +680,13 @@ def make_case(rng, radius, settings=None):
     scheme = rng.choice(['zero', 'zero', 'mixed', 'mixed', 'disorder'])
     atoms = []
     used = set()
+    # the operators used for 'image' / 'special' placements rotate through the whole group (random start), so that
+    # within a few atoms every operator class - displaced inversion centres, centring copies, screw axes - realises a contact
+    opturn = [rng.randrange(1, len(group)) if len(group) > 1 else 0]
+
+    def next_op():
+        opturn[0] = opturn[0] % (len(group) - 1) + 1
+        return opturn[0]
 
     def image(x, k, t):
         R, tau = group[k]
@@ -581,7 +718,7 @@ def make_case(rng, radius, settings=None):
             # near (or on) a fixed point of a non-identity operator: midpoint of a point and its image, plus an offset
             p = base['xyz'] if base else [rng.uniform(0, 1) for _ in range(3)]
             if len(group) > 1:
-                q = image(p, rng.randrange(1, len(group)), [rng.randint(-1, 1) for _ in range(3)])
+                q = image(p, next_op(), [rng.randint(-1, 1) for _ in range(3)])
                 mid = [(p[r] + q[r]) / 2 for r in range(3)]
             else:
                 mid = list(p)
@@ -598,13 +735,66 @@ def make_case(rng, radius, settings=None):
             x = step_from(base['xyz'], rng.uniform(4.4, 6.6))
         if mode.startswith('image') and len(group) > 1:
             # move the new atom next to a symmetry image of the base atom, so that the shortest contact needs an operator
-            kk = rng.randrange(1, len(group))
+            kk = next_op()
             x = image(x, kk, [rng.randint(-1, 1) for _ in range(3)])
         # keep every coordinate in [-0.15, 1.15]: then |R x1 + tau - x2| < 2.5 per component and the box of +-3 suffices
         x = [v if -0.15 <= v <= 1.15 else v % 1 for v in x]
         x = [float(f'{v:.6f}') for v in x]
         atoms.append(dict(name=gen.atom_name(rng, el, used), el=el, xyz=x, part=part))
     return dict(setting=name, cell=cell, latt=latt, symm=list(symm), atoms=atoms)
+
+
+def make_history(rng, case, radius):
+    """1..2 steps of edits through the public API that change the bond graph (delete / move / change element / change
+    PART / add an atom), optionally with a grow() before the edits and optionally asking the SAME SDM object again"""
+    cell = case['cell']
+    M = ortho_matrix(cell)
+    atoms = [dict(a) for a in case['atoms']]
+    used = {a['name'] for a in atoms}
+    history = []
+
+    def near(x, length):
+        r = to_cart(M, x)
+        d = rand_dir(rng)
+        y = to_frac(M, [r[k] + length * d[k] for k in range(3)])
+        y = [v if -0.15 <= v <= 1.15 else v % 1 for v in y]
+        return [float(f'{v:.6f}') for v in y]
+
+    for _ in range(rng.choice([1, 1, 2])):
+        edits = []
+        for _ in range(rng.choice([0, 1, 1, 2, 3])):
+            kinds = ['move-far', 'move-near', 'element', 'part', 'add']
+            if len(atoms) > 2:
+                kinds += ['delete', 'delete']
+            kind = rng.choice(kinds)
+            i = rng.randrange(len(atoms))
+            if kind == 'delete' and atoms[i].get('added'):
+                # deleting an atom that add_atom() created raises 'object is not in the file' (add_atom does not enter it
+                # into the file list): a defect of the editing API (C04/C08), outside this property - not generated here
+                kind = 'move-far'
+            if kind == 'delete':
+                e = dict(op='delete', i=i)
+            elif kind == 'move-far':
+                e = dict(op='move', i=i, xyz=[float(f'{rng.uniform(-0.15, 1.15):.6f}') for _ in range(3)])
+            elif kind == 'move-near':
+                j = rng.randrange(len(atoms))
+                rs = radius[atoms[i]['el']] + radius[atoms[j]['el']]
+                e = dict(op='move', i=i, xyz=near(atoms[j]['xyz'], rs * rng.choice([rng.uniform(0.72, 1.12), rng.uniform(1.3, 2.2)])))
+            elif kind == 'element':
+                e = dict(op='element', i=i, el=rng.choice([x for x in ELEMENT_POOL if x != atoms[i]['el']]))
+            elif kind == 'part':
+                e = dict(op='part', i=i, part=rng.choice([p for p in (0, 1, 2, -1) if p != atoms[i]['part']]))
+            else:
+                # add_atom() takes the element from the SFAC list as it is (it does not extend it: not C13's business)
+                el = rng.choice(sorted({a['el'] for a in case['atoms']}))
+                e = dict(op='add', name=gen.atom_name(rng, el, used), el=el, part=rng.choice([0, 0, 1, 2]),
+                         xyz=near(atoms[i]['xyz'], (radius[el] + radius[atoms[i]['el']]) * rng.uniform(0.72, 1.12)))
+            edits.append(e)
+            atoms = apply_edit_to_case(atoms, e)
+            if e['op'] == 'add':
+                atoms[-1]['added'] = True
+        history.append(dict(grow=rng.random() < 0.3, reuse=rng.random() < 0.25, edits=edits))
+    return history
 
 
 # the witnesses of the two open findings run first in every run, so that a finding that disappears is noticed
@@ -620,27 +810,43 @@ WITNESSES = [
 
 
 def run(ctx):
-    ctx.rule = ('generated structures: 2..12 atoms (C N O H D S Cl F P Si Br Fe B Zn; PART 0/1/2/-1), primitive settings '
+    ctx.rule = ('generated structures: 2..12 atoms (C N O H D S Cl F P Si Br Fe B Zn; PART 0/1/2/-1), settings '
                 + ', '.join(s[0] for s in SETTINGS if abs(s[2]) in LATTICE_TYPES) +
                 ' with random cells of perpendicular spacing >= 7 A; atoms placed as bonded / non-bonded neighbours of earlier atoms or of '
                 'their symmetry images, on and near special positions, as disorder partners, around the 5.3 A cut; distinct by '
-                '(cell, setting, atoms); non-trivial = at least one contact realised by a non-identity operator and at least one bond')
+                '(cell, setting, atoms, history prefix); a third of the cases continue with 1..2 steps calc -> edits (delete / move / element / PART / add '
+                'through the public API, optionally grow() before, optionally the same SDM object asked again) -> calc on ONE Shelxfile object, every '
+                'stage compared in full; non-trivial = at least one contact realised by a non-identity operator and at least one bond')
     ctx.assumptions = ['distances compared at 1e-9 (float rounding of the implementation is not covered by the exact-arithmetic theorems)',
                        'pairs outside the domain are not compared: true distance >= half the smallest spacing, images in (1e-6, 0.05) A, '
                        'within 2e-3 of the 5.3 cut, within 1e-3 of the bond limit, identity contact within 3e-4 above another operator\'s',
-                       f'lattice types generated: {LATTICE_TYPES} (centred settings wait for C11)']
+                       f'lattice types generated: {LATTICE_TYPES}; quick tier: all primitive settings + {QUICK_CENTRED} random centred ones']
     radius = lib_constants()
     n = ctx.budget(300, 5000)
     cases = [dict(w) for w in WITNESSES]
-    settings = [s for s in SETTINGS if abs(s[2]) in LATTICE_TYPES]
+    check_settings_table()
+    settings = [s for s in SETTINGS if abs(s[2]) == 1 and 1 in LATTICE_TYPES]
+    centred = [s for s in SETTINGS if abs(s[2]) != 1 and abs(s[2]) in LATTICE_TYPES]
+    if ctx.tier == 'thorough' or ctx.escalated:
+        settings += centred
+    else:
+        # always at least QUICK_CENTRIC centrosymmetric centred groups (inversion centres displaced by centring vectors)
+        centric = [s for s in centred if s[2] > 0]
+        chosen = ctx.rng.sample(centric, min(QUICK_CENTRIC, len(centric)))
+        rest = [s for s in centred if s not in chosen]
+        settings += chosen + ctx.rng.sample(rest, min(QUICK_CENTRED - len(chosen), len(rest)))
     for k in range(n):
         # every setting in turn, so that even the quick tier visits all of them
         st = [settings[k % len(settings)]]
         best = None
         for _ in range(4):
             c = make_case(ctx.rng, radius, st)
-            orc = oracle(c, radius)
-            bad = sum(1 for p in orc['pairs'].values() if set(p['flags']) & {'near-cut', 'near-bond-limit', 'identity-near-tie', 'image-in-(0,0.05)'})
+            if ctx.rng.random() < HISTORY_SHARE:
+                c['history'] = make_history(ctx.rng, c, radius)
+            bad = 0
+            for stc in stages(c):
+                orc = oracle(stc, radius)
+                bad += sum(1 for p in orc['pairs'].values() if set(p['flags']) & {'near-cut', 'near-bond-limit', 'identity-near-tie', 'image-in-(0,0.05)'})
             if best is None or bad < best[0]:
                 best = (bad, c)
             if bad == 0:
